@@ -18,7 +18,7 @@ from .common import viol, short_exc, exc_site
 PROPERTY = "C19"
 RULE = ("E3: (start, end) pairs over 13 instants x freq {15min,h,2h,6h,d,MS} x main unit {h,d,min} x zone {None,UTC,CET} (grids of 1..300 "
         "steps); per grid: 21 restriction windows over 6 grid-relative instants, coarse frequencies 2x/3x/4x on 4 windows, discount "
-        "factors, all ordered lists of <= 2 (quick: plus every 97th list of 3; thorough: every 5th) intervals over 6 instants x forms {list, array, DatetimeIndex, scalar} x "
+        "factors, all ordered lists of <= 2 (quick: plus every 97th list of 3; thorough: every 5th) intervals over 6 instants (plus one interval entirely before and one entirely behind the grid) x forms {list, array, DatetimeIndex, scalar} x "
         "{explicit, implicit end} x {naive, zone-aware data}, price arrays of length T; distinct = canonical grid case; non-trivial = "
         "the grid was built and compared")
 ASSUMPTIONS = ["R1: fixed frequencies step in absolute time, d / MS in wall-clock calendar time; a partial last step is dropped",
@@ -267,9 +267,10 @@ def run_case(case):
             V.append(viol("c19.values_raises", "values_to_grid on a restricted grid raises %s" % short_exc(ex), tags + ["exc:" + type(ex).__name__], ctag + ["interval", "restricted_single_start"]))
     # ---- interval data
     if 2 <= T <= 40:
-        specs = [("before", 1), ("gp", 0), ("gp", 1), ("mid", 1), ("gp", T - 1), ("after", 1)]
+        specs = [("before", 1), ("gp", 0), ("gp", 1), ("mid", 1), ("gp", T - 1), ("after", 1), ("before", 2), ("after", 2)]
         inst = sorted(set(g.instant(sp) for sp in specs))
-        ivs = list(itertools.combinations(inst, 2))
+        # all intervals over the six inner instants, plus the two that lie entirely before / behind the grid
+        ivs = [iv for iv in itertools.combinations(inst, 2) if (iv[0] != inst[0] and iv[1] != inst[-1]) or iv in ((inst[0], inst[1]), (inst[-2], inst[-1]))]
         nl = case.get("lists", 2)
         lists = [[iv] for iv in ivs] + [list(p) for p in itertools.permutations(ivs, 2)]
         if nl >= 3:
